@@ -910,4 +910,38 @@ example : KF.c02OpGap .sub Ty.none Ty.int Ty.int Ty.int = true ∧ KF.c02OpGap .
     KF.c02OpGap .mod Ty.none Ty.none Ty.none Ty.none = true ∧ KF.c02OpGap .add Ty.none Ty.int Ty.int Ty.int = false ∧
     KF.c02OpGap .mul Ty.num Ty.int Ty.num Ty.int = false := ⟨rfl, rfl, rfl, rfl, rfl⟩
 
+/-! ### C02R4 — the known-finding regions C02.static_vs_runtime.bity.* are exact -/
+
+/-- For the 16 built-ins of `builtin_type_sound_partial`, arguments of level 0 are outside every recorded region … -/
+theorem kf_builtin_region_empty_on_level0 (name : String) (hn : name ∈ typedBuiltins) (sts : List Ty) (cls : List KF.ArgCls)
+    (h0 : ∀ c ∈ cls, c.1.level = 0) : KF.c02BuiltinGap name sts cls = false := by
+  simp only [typedBuiltins, List.mem_cons, List.mem_nil_iff, or_false] at hn
+  rcases hn with rfl | rfl | rfl | rfl | rfl | rfl | rfl | rfl | rfl | rfl | rfl | rfl | rfl | rfl | rfl | rfl
+  all_goals first
+    | (simp [KF.c02BuiltinGap, KF.c02MathUnary, KF.c02StrTable]; done)
+    | (cases cls with
+       | nil => simp [KF.c02BuiltinGap, KF.c02MathUnary, KF.c02StrTable, KF.gapStrTable]
+       | cons c r =>
+         have := h0 c (List.mem_cons_self ..)
+         obtain ⟨t, n⟩ := c
+         simp only at this
+         simp [KF.c02BuiltinGap, KF.c02MathUnary, KF.c02StrTable, KF.gapStrTable, this])
+
+/-- … and there the compile-time type IS the run-time type (`builtin_type_sound_partial`): outside the regions named by the driver
+(`KF.c02BuiltinGap`) a static ≠ run-time disagreement of these built-ins is not a recorded defect — the check reports it as a
+violation. (The ten math built-ins of the regions — floating point, unmodelled values — have the region from their source only;
+their tie is the `builtin1/2` families.) -/
+theorem builtin_static_eq_runtime_outside_kf_region (fmt : F64 → Bytes) (name : String) (args : List (Res Val)) (r : Res Val)
+    (v : Val) (t : Ty) (hn : name ∈ typedBuiltins) (h : ArgsTy args) (hr : evalBuiltin (m := Res) fmt name args = some r)
+    (hv : r = .ok v) (ht : builtinStaticTy name = some t) (sts : List Ty) (cls : List KF.ArgCls) (h0 : ∀ c ∈ cls, c.1.level = 0) :
+    KF.c02BuiltinGap name sts cls = false ∧ v.type = t :=
+  ⟨kf_builtin_region_empty_on_level0 name hn sts cls h0, builtin_type_sound_partial fmt name args r v t hn h hr hv ht⟩
+
+example : KF.c02BuiltinGap "ceil" [Ty.int] [(Ty.int, true)] = true ∧ KF.c02BuiltinGap "ceil" [Ty.int] [(Ty.int, false)] = false ∧
+    KF.c02BuiltinGap "max" [Ty.none, Ty.int] [(Ty.int, false), (Ty.int, false)] = true ∧
+    KF.c02BuiltinGap "max" [Ty.int, Ty.int] [(Ty.int, false), (Ty.int, false)] = false ∧
+    KF.c02BuiltinGap "str" [Ty.none] [({ major := .str, level := 1 }, false)] = true ∧
+    KF.c02BuiltinGap "b64dec" [Ty.str] [(Ty.str, true)] = true ∧ KF.c02BuiltinGap "strlen" [Ty.none] [(Ty.int, true)] = false := by
+  decide
+
 end BlocV.C02
